@@ -674,9 +674,18 @@ def _deplain(x):
     return x
 
 
+_CONCRETE_REDUCTIONS = {"all", "any", "sum", "count_nonzero", "max", "min", "amax", "amin", "mean", "dot", "argsort", "sort", "allclose", "array_equal",
+                        "argmax", "argmin", "prod", "cumsum", "unique", "nonzero", "flatnonzero", "median", "nanmax", "nanmin", "isin"}
+
+
 def plain_call(real, *args, **kwargs):
     """All-concrete call: done by the real NumPy; the result is a SymArray iff an input was one."""
     anysa = _involves_symarray(list(args) + list(kwargs.values()))
+    nm = getattr(real, "__name__", "")
+    if nm in _CONCRETE_REDUCTIONS and any(isinstance(a, rnp.ndarray) and a.size > 1 for a in args):
+        # a reduction over several (concrete) elements can couple the elements of a result: recorded, because the per-element
+        # "all shapes" argument of purely element-wise code does not survive it
+        OPLOG.add("concrete-reduce:" + nm)
     with rnp.errstate(all="ignore"):
         r = real(*[_deplain(a) for a in args], **{k: _deplain(v) for k, v in kwargs.items()})
     if not anysa:
@@ -1049,6 +1058,11 @@ def argsort(a, axis=-1, kind=None, **kw):
 def argmin(a, axis=None):
     if not has_sym(a):
         return plain_call(rnp.argmin, a, axis=axis)
+    A = _obj(a)
+    if all(isinstance(e, (SBool, bool, rnp.bool_)) for e in A.flat):
+        # index of the first False of a boolean array: the (symbolic) entries are decided by forking
+        OPLOG.add("reduce")
+        return rnp.argmin(_decide_mask(a), axis=axis)
     raise Unsupported("argmin on symbolic values")
 
 
@@ -1111,12 +1125,18 @@ def _structural(name):
     return f
 
 
+LIBRARY_CONTRACTS = {}  # e.g. "linalg.svd" -> callable standing for the library function on symbolic values (set by a scenario)
+
+
 class _Linalg:
     def __getattr__(self, name):
         real = getattr(rnp.linalg, name)
 
         def f(*a, **k):
             if has_sym(list(a)):
+                if "linalg." + name in LIBRARY_CONTRACTS:
+                    OPLOG.add("library-contract:linalg." + name)
+                    return LIBRARY_CONTRACTS["linalg." + name](*a, **k)
                 raise Unsupported("numpy.linalg.%s on symbolic values" % name)
             res = real(*[to_plain(x) if isinstance(x, rnp.ndarray) else x for x in a], **k)
             if isinstance(res, tuple):
